@@ -408,7 +408,14 @@ fn live_apply(s: &mut Stmt, ops: &[Op]) {
         self_clone: None,
     };
     for o in ops {
-        apply_op(s, o, &mut cx).expect("HARNESS: thread op failed");
+        if let Err(e) = apply_op(s, o, &mut cx) {
+            // an INSERT row / select source the tree rejects although the template meant it to
+            // fit: the call did not take effect — here and in the lineage replay alike
+            if matches!(o, Op::Ins(_)) {
+                continue;
+            }
+            panic!("HARNESS: thread op failed: {:?}", e);
+        }
     }
 }
 
